@@ -769,6 +769,27 @@ def r21_decoded_length_counts_bytes_read(cx):
         cx.ob = orig
 
 
+def r22_cluster_reader_chosen_by_the_stored_tag(cx):
+    """whether the bytes of a cluster are served as they are or through a decoder is what its header says
+    (`compression`): where `Cluster::finalize` builds the reader state, the branch that separates "plain" from "to be
+    decoded" tests that field -- not the sizes (a compressed stream can be exactly as long as its data)."""
+    F = cx.F
+    f = F.one(impl_self="reader::content_pack::cluster::Cluster", item="finalize", trait="DataBlockParsable", closure=False)
+    b = F.deep_body(f, only=r"reader::content_pack::cluster::")
+    sites = [i for i, blk in enumerate(b.blocks) if not blk.get("cleanup") and (
+        any(st["k"] == "assign" and st["rv"]["k"] == "agg" and (st["rv"].get("adt") or "").endswith("cluster::ClusterReader") for st in blk["s"])
+        or call_is(blk["t"], r"cluster::ClusterReader::\w+$"))]
+    if len(sites) < 2:
+        raise AnchorLost("Cluster::finalize: %d constructions of the reader state" % len(sites))
+    deciding = set()
+    for i in sites:
+        deciding |= set(b.control_dep_switches(i))
+    by_tag = [s_ for s_ in deciding if ("field", "compression") in b.origins(b.term(s_)["op"])]
+    by_size_only = [b.ln(s_) for s_ in deciding if s_ not in by_tag and any(x[0] == "field" and "size" in x[1] for x in b.origins(b.term(s_)["op"]))]
+    cx.ob("R22", "R22/Cluster.finalize/reader-chosen-by-the-stored-tag", bool(by_tag), f,
+          "the branch between the plain and the to-be-decoded reader tests the compression recorded in the cluster header (%d such branches; branches on sizes only: lines %s)" % (len(by_tag), by_size_only))
+
+
 def r10_witness(cx):
     """type-level: ContentPackCreator::finalize consumes the creator (no insertion after finalisation)"""
     import witness
@@ -805,4 +826,5 @@ RULES = [
     ("R19", r19_positions_taken_on_the_buffered_stream, 1),
     ("R20", r20_no_partial_write_accepted, 1),
     ("R21", r21_decoded_length_counts_bytes_read, 6),
+    ("R22", r22_cluster_reader_chosen_by_the_stored_tag, 1),
 ]
